@@ -37,8 +37,12 @@ AbsInit(k) ==  \* a log of k operations, each with a fresh view: root, init, set
 AbsCanUndo(st) == st.past # <<>>
 AbsCanRedo(st) == st.future # <<>>
 
-AbsPush(st, v) ==   \* an ordinary operation whose view is v
-  [past |-> Append(st.past, st.cur), cur |-> v, future |-> <<>>, n |-> st.n + 1]
+(* An ordinary operation whose view is v.  A transaction that does not     *)
+(* change the view is not committed ("Nothing changed."): no operation, no  *)
+(* change to the stack.                                                     *)
+AbsPush(st, v) ==
+  IF v = st.cur THEN st
+  ELSE [past |-> Append(st.past, st.cur), cur |-> v, future |-> <<>>, n |-> st.n + 1]
 
 (* views[i] = view of operation i; needed for restore / revert, whose       *)
 (* target is named by the operation, not by the stack                       *)
@@ -107,7 +111,9 @@ ImplStep(log, c, bug) ==
   ELSE IF c.a = "redo" THEN
     LET t == RedoRestoreTo(log, bug) IN
     Append(log, [kind |-> "redo", par |-> Len(log), tgt |-> t, view |-> log[t].view])
-  ELSE IF c.a = "restore" THEN Append(log, NormalOp(log, log[c.k].view))
+  ELSE IF c.a = "restore" THEN
+    IF log[c.k].view = log[Len(log)].view THEN log ELSE Append(log, NormalOp(log, log[c.k].view))
+  ELSE IF log[Len(log) - 1].view = log[Len(log)].view THEN log
   ELSE Append(log, NormalOp(log, log[Len(log) - 1].view))
 
 Views(log) == [i \in 1..Len(log) |-> log[i].view]
